@@ -876,6 +876,85 @@ package bloomsearch
 // min_max.go
 // ---------------------------------------------------------------------------
 
+// Numeric conversion (C04 obligation 1, C18). The dynamic type of `value` ranges
+// over ALL types: kindof is fixed on the predeclared types only, so named
+// numeric types (time.Duration, type ID uint64, type Score float64, ...) are
+// covered. Floats are the extended reals Flt = fin(r) | +inf | -inf | NaN; the
+// operations used (floor, ceil, comparison, int64 of an in-range integral
+// value, float32 -> float64) are exact in IEEE-754.
+//@ pred isIntKind(x any) = 2 <= kindof(x) && kindof(x) <= 12
+//@ pred isFloatKind(x any) = kindof(x) == 13 || kindof(x) == 14
+//@ pred fltInf(f flt) = ispinf(f) ? 1 : (isninf(f) ? 0 - 1 : 0)
+
+//@ extern math.IsNaN
+//@ pure
+//@ ensures result <==> isnan(f)
+//@ extern math.Floor
+//@ pure
+//@ ensures isfin(x) ==> isfin(result) && fval(result) == real(floor(fval(x)))
+//@ ensures !isfin(x) ==> result == x
+//@ extern math.Ceil
+//@ pure
+//@ ensures isfin(x) ==> isfin(result) && fval(result) == real(ceil(fval(x)))
+//@ ensures !isfin(x) ==> result == x
+
+// reflect, as used by the kind fallback: a Value remembers the interface value it
+// was made from; Kind is that value's kind; Int/Uint/Float read its payload.
+//@ specfun rvOf(v reflect.Value) iface
+//@ extern reflect.ValueOf
+//@ pure
+//@ ensures rvOf(result) == i
+//@ extern reflect.Value.Kind
+//@ pure
+//@ ensures result == kindof(rvOf(v))
+//@ extern reflect.Value.Int
+//@ pure
+//@ ensures result == ival(rvOf(v))
+//@ extern reflect.Value.Uint
+//@ pure
+//@ ensures result == ival(rvOf(v))
+//@ extern reflect.Value.Float
+//@ pure
+//@ ensures result == fltof(rvOf(v))
+
+//@ func namedFloatValue
+//@ props C04 C18
+//@ ensures isFloatKind(value) ==> result1 && result0 == fltof(value)
+//@ ensures !isFloatKind(value) ==> !result1
+
+//@ func clampFloatToInt64
+//@ props C04 C18
+//@ safety
+//@ requires !isnan(v)
+//@ ensures ispinf(v) ==> result == MaxInt64
+//@ ensures isninf(v) ==> result == MinInt64
+//@ ensures isfin(v) && fval(v) >= 9223372036854775808.0 ==> result == MaxInt64
+//@ ensures isfin(v) && fval(v) <= 0.0 - 9223372036854775808.0 ==> result == MinInt64
+//@ ensures isfin(v) && fval(v) < 9223372036854775808.0 && fval(v) > 0.0 - 9223372036854775808.0 ==> result == (fval(v) >= 0.0 ? floor(fval(v)) : ceil(fval(v)))     // int64(v) truncates toward zero
+
+//@ func floatToMinMaxInt64
+//@ props C04 C18
+//@ ensures isnan(v) ==> !ok
+//@ ensures !isnan(v) ==> ok
+//@ ensures ispinf(v) ==> minVal == MaxInt64 && maxVal == MaxInt64
+//@ ensures isninf(v) ==> minVal == MinInt64 && maxVal == MinInt64
+//@ ensures isfin(v) ==> minVal == clampZ(floor(fval(v)))
+//@ ensures isfin(v) ==> maxVal == clampZ(ceil(fval(v)))
+
+//@ func toInt64
+//@ props C04 C18
+//@ requires payloadOK(value)
+//@ ensures isIntKind(value) ==> result1 && result0 == clampZ(ival(value))
+//@ ensures !isIntKind(value) ==> !result1
+
+//@ func ConvertToMinMaxInt64
+//@ props C04 C18
+//@ requires payloadOK(value)
+//@ ensures isIntKind(value) ==> ok && minVal == clampZ(ival(value)) && maxVal == clampZ(ival(value))
+//@ ensures isFloatKind(value) && !isnan(fltof(value)) ==> ok && minVal == lo(fltInf(fltof(value)), fval(fltof(value))) && maxVal == hi(fltInf(fltof(value)), fval(fltof(value)))
+//@ ensures isFloatKind(value) && isnan(fltof(value)) ==> !ok
+//@ ensures !isIntKind(value) && !isFloatKind(value) ==> !ok
+
 //@ func UpdateMinMaxIndex
 //@ props C04 C18 C11
 //@ ensures result.Min == min(existing.Min, newMin)
